@@ -15,6 +15,7 @@ code as found, kept as the negative witness `f6_discharge_violates_contract`.
 import Macaroon.Lemmas.Bundle
 import Macaroon.Props.C04
 import Macaroon.Props.C19
+import Macaroon.Generated.Consts
 
 namespace Macaroon.Props.C13
 open Macaroon Macaroon.Bundle Macaroon.Lemmas.BundleL
@@ -285,6 +286,106 @@ theorem clone_independent (b : Bundle) :
     b.clone.header = Header.schemeFlyV1 ++ ' ' :: Header.joinWith ',' ((Header.parts b.header).map Header.trim) :=
   ⟨rfl, rfl, fun t ht => parseToks_fresh _ t ht, headerOf_parseToks _⟩
 
+/-! ### flyio/bundle.go -/
+
+/-- the Fly.io locations of the model are the constants of `flyio/flyio.go` (regenerated table) -/
+theorem flyio_locations_match :
+    Generated.strConsts.lookup "flyio.LocationPermission" = some (String.ofList (flyioPermission.map fun b => Char.ofNat b.toNat)) ∧
+    Generated.strConsts.lookup "flyio.LocationAuthentication" = some (String.ofList (flyioAuthentication.map fun b => Char.ofNat b.toNat)) ∧
+    Generated.strConsts.lookup "flyio.LocationNewAuthentication" = some (String.ofList (flyioNewAuthentication.map fun b => Char.ofNat b.toNat)) ∧
+    Generated.strConsts.lookup "flyio.LocationSecrets" = some (String.ofList (flyioSecrets.map fun b => Char.ofNat b.toNat)) := by
+  decide
+
+/-- `flyio.ParseBundle` / `ParseBundleWithFilter` are `bundle.ParseBundle(WithFilter)` at the Fly.io
+permission location: everything proved about parsed bundles applies -/
+theorem flyio_parse (hdr : Str) (f : Filter) :
+    Bundle.flyioParse hdr = Bundle.parse flyioPermission hdr ∧ Bundle.flyioParseWith hdr f = Bundle.parseWith flyioPermission hdr f ∧
+    VerifiedArePerm (Bundle.flyioParseWith hdr f).1 :=
+  ⟨rfl, rfl, inv_parseWith _ hdr f⟩
+
+/-- `flyio.IsPermissionToken / IsAuthToken / IsNewAuthToken / IsSecretsToken` keep exactly the
+well-formed macaroons at that location — whatever the bundle's own permission location is -/
+theorem flyio_location_predicates (pl : Bytes) (ts : List Tok) :
+    Filter.flyioIsPermissionToken.apply pl ts = ts.filter (isPermAt flyioPermission) ∧
+    Filter.flyioIsAuthToken.apply pl ts = ts.filter (isPermAt flyioAuthentication) ∧
+    Filter.flyioIsNewAuthToken.apply pl ts = ts.filter (isPermAt flyioNewAuthentication) ∧
+    Filter.flyioIsSecretsToken.apply pl ts = ts.filter (isPermAt flyioSecrets) :=
+  ⟨applyMask_map _ _, applyMask_map _ _, applyMask_map _ _, applyMask_map _ _⟩
+
+/-- **isForOrg_iff.**  A token satisfies `flyio.IsForOrg(o)` iff it is VERIFIED and its verified
+caveat set clears the request "organization `o`, no action" (at the wall-clock instant the request
+reports).  Unverified, failed, malformed and non-macaroon tokens never satisfy it. -/
+theorem isForOrg_iff (pl : Bytes) (ts : List Tok) (o : UInt64) (sec : Int) (nsec : Nat) (t : Tok) :
+    t ∈ (Filter.flyioIsForOrg o sec nsec).apply pl ts ↔
+      t ∈ ts ∧ ∃ s m cs, t = .verified s m cs ∧ Macaroon.validate cs [(Flyio.orgReq o).toAccess sec nsec] = [] := by
+  have h : (Filter.flyioIsForOrg o sec nsec).apply pl ts =
+      ts.filter fun t => match t.cs? with
+        | some cs => (Macaroon.validate cs [(Flyio.orgReq o).toAccess sec nsec]).isEmpty
+        | none => false := applyMask_map _ ts
+  rw [h, List.mem_filter]
+  constructor
+  · rintro ⟨ht, hk⟩
+    refine ⟨ht, ?_⟩
+    cases t with
+    | verified s m cs => exact ⟨s, m, cs, rfl, by simpa [Tok.cs?, List.isEmpty_iff] using hk⟩
+    | nonMac s => simp [Tok.cs?] at hk
+    | malformed s => simp [Tok.cs?] at hk
+    | unverified s m => simp [Tok.cs?] at hk
+    | failed s m => simp [Tok.cs?] at hk
+  · rintro ⟨ht, s, m, cs, rfl, hv⟩
+    exact ⟨ht, by simp [Tok.cs?, hv]⟩
+
+/-- `IsForOrg` is the clearing predicate of C17: it holds of a verified token exactly when
+`Flyio.clears` does for the organization request -/
+theorem isForOrg_is_clears (cs : CS) (o : UInt64) (sec : Int) (nsec : Nat) :
+    (Macaroon.validate cs [(Flyio.orgReq o).toAccess sec nsec] = []) ↔ Flyio.clears cs (Flyio.orgReq o) sec nsec = true := by
+  simp [Flyio.clears, List.isEmpty_iff]
+
+/-- **isForOrgUnverified_iff.**  A token satisfies `flyio.IsForOrgUnverified(o)` iff it is a
+well-formed macaroon (verified or not) at the Fly.io permission location whose UNVERIFIED caveats have
+organization scope exactly `o` — `OrganizationScope` returns `o` without error (C17 `orgScope_sound`
+says what that means).  Tokens of other locations, and tokens without a unique organization scope
+(no Organization caveat, or conflicting ones, also inside `IfPresent`), never satisfy it. -/
+theorem isForOrgUnverified_iff (pl : Bytes) (ts : List Tok) (o : UInt64) (t : Tok) :
+    t ∈ (Filter.isForOrgUnverified o).apply pl ts ↔
+      t ∈ ts ∧ ∃ m, t.mac? = some m ∧ m.loc = flyioPermission ∧ Flyio.organizationScope m.cavs = .ok o := by
+  have h : (Filter.isForOrgUnverified o).apply pl ts = ts.filter (forOrgUnverified o) := applyMask_map _ ts
+  rw [h, List.mem_filter]
+  constructor
+  · rintro ⟨ht, hk⟩
+    refine ⟨ht, ?_⟩
+    unfold forOrgUnverified at hk
+    rw [Bool.and_eq_true] at hk
+    obtain ⟨hp, hs⟩ := hk
+    obtain ⟨m, hm, hl⟩ := (isPermAt_iff _ _).mp hp
+    refine ⟨m, hm, hl, ?_⟩
+    rw [hm] at hs
+    cases hsc : Flyio.organizationScope m.cavs with
+    | error e => simp [hsc] at hs
+    | ok o' =>
+      simp only [hsc, beq_iff_eq] at hs
+      rw [hs]
+  · rintro ⟨ht, m, hm, hl, hsc⟩
+    refine ⟨ht, ?_⟩
+    unfold forOrgUnverified
+    rw [Bool.and_eq_true]
+    exact ⟨(isPermAt_iff _ _).mpr ⟨m, hm, hl⟩, by simp [hm, hsc]⟩
+
+/-- `Select` / `Filter` / `Count` / `Any` with the Fly.io predicates have the contracts of
+`select_pure` / `filter_effect`: a sub-list in the original order, the bundle the call is made on is
+otherwise untouched, and `Count` is the length of what `Select` returns -/
+theorem flyio_filters_contracts (b : Bundle) (f : Filter) :
+    (b.select f).ts.Sublist b.ts ∧ (b.filter f).ts.Sublist b.ts ∧ (b.select f).permLoc = b.permLoc ∧
+    (b.select f).ts = f.apply b.permLoc b.ts ∧ (b.filter f).ts = f.apply b.permLoc b.ts :=
+  ⟨applyMask_sublist _ _, applyMask_sublist _ _, rfl, rfl, rfl⟩
+
+/-- `flyio.UUIDs` / `flyio.NonceEmails` render the nonces of the tokens at the Fly.io permission
+location, in bundle order, one per token -/
+theorem flyio_nonces (b : Bundle) :
+    b.flyioNonces = (b.ts.filter (isPermAt flyioPermission)).filterMap fun t => t.mac?.map fun m => (m.nonce.kid, m.nonce.rnd) := by
+  unfold Bundle.flyioNonces
+  rw [(flyio_location_predicates b.permLoc b.ts).1]
+
 /-! ### non-vacuity -/
 
 /-- the hypothesis of `bundle_decision` holds for every parsed header -/
@@ -306,6 +407,19 @@ example : f6Bundle.dischargeF6 [65] [] (fun _ => some []) [] = (f6Bundle, true) 
 /-- a third-party caveat alone in a verified set refuses a plain request -/
 example : Macaroon.validate [(Cav.tp [1] [2] [3] : Cav Bytes)] [Access.bare 0 0] ≠ [] :=
   third_party_caveat_clears_nothing _ [1] [2] [3] (by simp) _ (by simp)
+
+/-- a token at the Fly.io permission location with the given caveats -/
+def flyTok (cs : CS) : Tok :=
+  .unverified [] { nonce := ⟨[7], [], 1, false⟩, loc := flyioPermission, cavs := cs, tail := [], newProof := false }
+
+/-- one Organization caveat: scoped to that organization and to no other -/
+example : forOrgUnverified 1 (flyTok [.organization 1 31]) = true ∧ forOrgUnverified 2 (flyTok [.organization 1 31]) = false := by
+  decide
+/-- conflicting Organization caveats (also inside IfPresent), or none: no organization scope -/
+example : forOrgUnverified 1 (flyTok [.organization 1 31, .organization 2 31]) = false ∧
+    forOrgUnverified 1 (flyTok [.organization 1 31, .ifPresent false (.cons (.organization 2 31) .nil) 31]) = false ∧
+    forOrgUnverified 1 (flyTok []) = false := by
+  decide
 
 end Macaroon.Props.C13
 
@@ -338,4 +452,12 @@ end Macaroon.Props.C13
 #print axioms Macaroon.Props.C13.discharge_effect
 #print axioms Macaroon.Props.C13.f6_discharge_violates_contract
 #print axioms Macaroon.Props.C13.clone_independent
+#print axioms Macaroon.Props.C13.flyio_locations_match
+#print axioms Macaroon.Props.C13.flyio_parse
+#print axioms Macaroon.Props.C13.flyio_location_predicates
+#print axioms Macaroon.Props.C13.isForOrg_iff
+#print axioms Macaroon.Props.C13.isForOrg_is_clears
+#print axioms Macaroon.Props.C13.isForOrgUnverified_iff
+#print axioms Macaroon.Props.C13.flyio_filters_contracts
+#print axioms Macaroon.Props.C13.flyio_nonces
 #print axioms Macaroon.Props.C13.f6_ticket_does_not_open
